@@ -1428,6 +1428,7 @@ fn emit_doc_faults(seed: u64, tier: Tier, unit: u64, sink: &mut dyn FnMut(Plan) 
         if let Ok(tree) = jsonf::parse(&text) {
             jsonf::structured_faults(&tree, &mut go);
             jsonf::ndarray_resizes(&tree, &mut go);
+            jsonf::toplevel_combos(&tree, if tier == Tier::Quick { 1500 } else { 20_000 }, &mut go);
             // coordinated multi-field faults: subsets of fields made degenerate together -
             // all subsets when there are at most 10 candidate fields, a seeded sample otherwise
             let nodes = jsonf::degenerate_nodes(&tree);
@@ -1708,6 +1709,8 @@ fn emit_calls(seed: u64, tier: Tier, unit: u64, sink: &mut dyn FnMut(Plan) -> bo
                     ymd_day(-43, 3, 15),
                     ymd_day(10_000, 1, 31),
                 ]),
+                // a leap day (whole-year offsets from it land on 28 February or 29 February)
+                4 => ymd_day(*r.pick(&[1972, 1996, 2000, 2004, 2024, 2096, 2104, 2196, 1600, 2400, 4, 40_000]), 2, 29),
                 _ => r.i64_in(0, ymd_day(2200, 12, 31)),
             };
             let cal = gen_cal_choice(r, day.clamp(0, ymd_day(2200, 12, 31)));
@@ -1721,6 +1724,11 @@ fn emit_calls(seed: u64, tier: Tier, unit: u64, sink: &mut dyn FnMut(Plan) -> bo
             let lo = 1970 * 12 - total;
             let hi = 2200 * 12 + 11 - total;
             let mut counts: Vec<i32> = (-40..=40).filter(|m| *m >= lo && *m <= hi).collect();
+            // whole numbers of years, of either sign, landing anywhere in the range
+            for _ in 0..12 {
+                let y = r.i64_in(1970, 2200) as i32;
+                counts.push((y - year) * 12);
+            }
             for _ in 0..40 {
                 counts.push(r.i64_in(lo as i64, hi as i64) as i32);
             }
@@ -2121,7 +2129,6 @@ fn emit_calls(seed: u64, tier: Tier, unit: u64, sink: &mut dyn FnMut(Plan) -> bo
                         y.truncate(1);
                     }
                 }
-                let _ = n;
                 sink(Plan::Call(CallSpec::Csolve {
                     spec: spec.clone(),
                     tau,
@@ -2130,6 +2137,40 @@ fn emit_calls(seed: u64, tier: Tier, unit: u64, sink: &mut dyn FnMut(Plan) -> bo
                     right_n: r.usize_in(0, spec.k + 1),
                     allow_lsq: r.chance(0.4),
                 }));
+                // every combination of site-count and value-count around n and around each
+                // other, with and without least squares
+                if n <= 8 {
+                    let tt: Vec<f64> = spec.t.iter().map(|x| x.get()).collect();
+                    let (a, b) = (tt[0], tt[tt.len() - 1]);
+                    let mut sites: Vec<Fx> = good.tau.clone();
+                    while sites.len() < n + 4 {
+                        sites.push(Fx::new(a + (b - a) * r.unit()));
+                    }
+                    let mut vals: Vec<Num> = good.y.clone();
+                    while vals.len() < n + 6 {
+                        vals.push(vals.first().cloned().unwrap_or(Num::F(Fx::new(1.5))));
+                    }
+                    let mut ntaus = vec![0usize, 1, n.saturating_sub(1), n, n + 1, n + 3];
+                    ntaus.sort();
+                    ntaus.dedup();
+                    for ntau in ntaus {
+                        let mut nys = vec![0usize, ntau.saturating_sub(1), ntau, ntau + 1, ntau + 2, n, n + 1];
+                        nys.sort();
+                        nys.dedup();
+                        for ny in nys {
+                            for allow_lsq in [false, true] {
+                                sink(Plan::Call(CallSpec::Csolve {
+                                    spec: spec.clone(),
+                                    tau: sites[..ntau].to_vec(),
+                                    y: vals[..ny].to_vec(),
+                                    left_n: 0,
+                                    right_n: 0,
+                                    allow_lsq,
+                                }));
+                            }
+                        }
+                    }
+                }
             }
         }
     }
